@@ -131,6 +131,18 @@ fn main() {
                 }
             }
         }
+        // errtab: the result-code table as the running code has it: code, variant name (Debug), text (Display, hex)
+        "errtab" => {
+            #[allow(unused_imports)]
+            use num_traits::FromPrimitive;
+            let mut rows = Vec::new();
+            for c in 0..=255u8 {
+                if let Some(e) = zvt::constants::ErrorMessages::from_u8(c) {
+                    rows.push(format!("{}:{:?}:{}", c, e, hex(format!("{}", e).as_bytes())));
+                }
+            }
+            emit(rows.join(";"))
+        }
         // dec <abs struct name> <hex>
         "dec" => emit(dispatch_struct(f[1], &unhex(f[2])).unwrap_or_else(|| "NoSuchType".to_string())),
         // enum <abs enum name> <hex>
